@@ -368,4 +368,15 @@ C07(cfg, obs) ==
                       /\ ~\E j \in Calls(obs) : FromC(obs, j, u) /\ obs[j].t = "T" /\ InsideP(nst.par, c, j)}})
     : u \in US}
 
+-----------------------------------------------------------------------------
+\* dispatcher used by the model configurations (MC_*) and by TraceProps
+PropsOf(p, cfg, obs) ==
+  CASE p = "C01" -> C01(cfg, obs)
+    [] p = "C02" -> C02(cfg, obs)
+    [] p = "C03" -> C03(cfg, obs)
+    [] p = "C04" -> C04(cfg, obs)
+    [] p = "C05" -> C05(cfg, obs)
+    [] p = "C07" -> C07(cfg, obs)
+    [] p = "C17" -> C17(cfg, obs)
+    [] OTHER -> {}
 =============================================================================
